@@ -42,6 +42,39 @@ func (e *Engine) initStringModels() {
 	e.withModel("strings.Index", func(fr *frame, a []value) value {
 		return intV(mkApp("str.indexof", SInt, termOf(a[0]), termOf(a[1]), mkInt64(0)))
 	})
+	// LastIndex: a fresh integer k constrained to be the last occurrence
+	lastIndex := func(fr *frame, s, sub *Term) value {
+		ex := fr.i.ex
+		ex.ndig++
+		k := mkVar(fmt.Sprintf("lastidx!%d!%d", len(ex.taken), ex.ndig), SInt)
+		ex.solver.Ref(k)
+		ex.aux = append(ex.aux, k)
+		n := tStrLen(s)
+		m := tStrLen(sub)
+		none := tAnd(tEq(k, mkInt64(-1)), tNot(tStrOp("str.contains", SBool, s, sub)))
+		rest := mkApp("str.substr", SStr, s, tAdd(k, mkInt64(1)), n)
+		some := tAnd(tCmp("<=", mkInt64(0), k), tCmp("<=", tAdd(k, m), n),
+			tEq(mkApp("str.substr", SStr, s, k, m), sub),
+			tNot(tStrOp("str.contains", SBool, rest, sub)))
+		ex.assume(tOr(none, some))
+		return intV(k)
+	}
+	e.withModel("strings.LastIndex", func(fr *frame, a []value) value {
+		sub := termOf(a[1])
+		if !(sub.isConst() && len(sub.s) == 1) {
+			// only single-character needles have an exact encoding here (no overlapping matches)
+			a = fr.i.ex.concretizeArgs(a, "strings.LastIndex(multi-char needle)")
+			return strings.LastIndex(a[0].(string), a[1].(string))
+		}
+		return lastIndex(fr, termOf(a[0]), sub)
+	})
+	e.withModel("strings.LastIndexByte", func(fr *frame, a []value) value {
+		sub := termOf(fr.i.ex.byteToString(a[1]))
+		if !(sub.isConst() && len(sub.s) == 1) {
+			fr.i.ex.unsupported("strings.LastIndexByte with a symbolic byte")
+		}
+		return lastIndex(fr, termOf(a[0]), sub)
+	})
 	e.withModel("strings.IndexByte", func(fr *frame, a []value) value {
 		return intV(mkApp("str.indexof", SInt, termOf(a[0]), termOf(fr.i.ex.byteToString(a[1])), mkInt64(0)))
 	})
